@@ -56,13 +56,123 @@ def parse_rows(m):
     return rows
 
 
+def voxel_stream(ctx, viol):
+    """class Voxels of neighborlist.cpp, driven through cshim/nbl_shim.cpp, against Model/Voxels.lean: findLowerBound / findUpperBound on
+    sorted bins with repeated x values, the bin positions getNeighbors scans (direct range, then the periodic image range) read off the order
+    of its output, and getVoxelIndex."""
+    import ctypes
+    import shim
+    from fractions import Fraction
+    lib, err = shim.build("nbl")
+    if lib is None:
+        ctx.broke("shim:nbl", err)
+        return
+    P, I, F_ = ctypes.c_void_p, ctypes.c_int, ctypes.c_float
+    lib.vox_new.restype = P; lib.vox_new.argtypes = [F_] * 6 + [P, I]
+    lib.vox_insert.restype = None; lib.vox_insert.argtypes = [P, I, P]
+    lib.vox_sort.restype = None; lib.vox_sort.argtypes = [P]
+    lib.vox_free.restype = None; lib.vox_free.argtypes = [P]
+    lib.vox_index.restype = None; lib.vox_index.argtypes = [P, P, P]
+    lib.vox_lower.argtypes = [P, I, I, ctypes.c_double, I, I]; lib.vox_upper.argtypes = [P, I, I, ctypes.c_double, I, I]
+    lib.vox_neighbors.argtypes = [P, I, F_, P, P, I]
+    rng = ctx.rng
+    if not ctx.driver_ok:
+        return
+    reqs, meta = [], []
+    for k in range(ctx.n(60, 500)):
+        L = rng.choice([1.0, 2.0, 4.0])
+        n = rng.choice([1, 2, 3, 5, 8, 13, 30])
+        grid = rng.choice([8, 16, 64])
+        xs = [rng.randrange(0, int(L * grid)) / grid for _ in range(n)]               # repeated values are likely on the coarse grids
+        if rng.random() < 0.3:
+            xs = [min(x, L / 4) for x in xs] if rng.random() < 0.5 else [max(x, 3 * L / 4) for x in xs]   # everything at one end of the box
+        box = np.diag([L, L, L]).astype(np.float32)
+        locs = np.array([[x, L / 2, L / 2] for x in xs], dtype=np.float32)
+        v = lib.vox_new(2 * L, 2 * L, 0.0, L, 0.0, L, box.ctypes.data, 1)                 # one voxel: ny = nz = 1
+        try:
+            for a in range(n):
+                lib.vox_insert(v, a, locs[a].ctypes.data)
+            lib.vox_sort(v)
+            order = sorted(range(n), key=lambda a: (xs[a], a))                             # sortItems: by (x, atom)
+            sx = [xs[a] for a in order]
+            sxs = " ".join(rat(x) for x in sx)
+            # ---- bisections
+            for _ in range(4):
+                lo = rng.randrange(0, n + 1); hi = rng.randrange(lo, n + 1)
+                x = rng.choice(sx + [rng.uniform(-0.5, L + 0.5)]) if rng.random() < 0.5 else rng.randrange(-4, int(L * grid) + 4) / grid
+                for name, fn in (("lb", lib.vox_lower), ("ub", lib.vox_upper)):
+                    got = fn(v, 0, 0, float(x), lo, hi)
+                    reqs.append("vox %s %s %d %d %s" % (name, rat(x), lo, hi, sxs)); meta.append(("bisect", name, got, (x, lo, hi, sx)))
+                    # independent oracle: the definition
+                    want = lo + (sum(1 for y in sx[lo:hi] if y < x) if name == "lb" else sum(1 for y in sx[lo:hi] if y <= x))
+                    ctx.case(None, ("bisect", k, name, lo, hi, float(x))); ctx.count("bisections")
+                    if got != want:
+                        viol("voxels|bisection|" + name, "find%sBound(x=%s, %d, %d) on the sorted bin %s returns %d, the first position %s x is %d" % (
+                            "Lower" if name == "lb" else "Upper", x, lo, hi, sx, got, "at or above" if name == "lb" else "above", want), dict(bin=sx, x=float(x), lower=lo, upper=hi))
+            # ---- the scan of getNeighbors, read off the order of its output: the centre is the atom with the largest index
+            if n >= 2:
+                c = n - 1
+                m = rng.choice([0.125, 0.25, 0.375, 0.4375]) * L / (2 if rng.random() < 0.3 else 1)
+                out = (ctypes.c_int * (4 * n + 8))()
+                cnt = lib.vox_neighbors(v, c, m, locs.ctypes.data, out, 4 * n + 8)
+                got = list(out[:min(cnt, 4 * n + 8)])
+                cx = xs[c]
+                minx, maxx = cx - m, cx + m                                                  # exact on the dyadic grid
+                need = minx < 0 or maxx > L
+                reqs.append("vox ranges %s %s %s %d %s" % (rat(minx), rat(maxx), rat(L), 1 if need else 0, sxs)); meta.append(("scan", None, got, (order, c, m, L, sx)))
+                # independent oracle: the atoms (other than the centre) within m of it by minimum image, each once
+                want = sorted(a for a in range(n) if a != c and min(abs(xs[a] - cx), L - abs(xs[a] - cx)) <= m)
+                ctx.case(None, ("scan", k)); ctx.count("neighbour scans")
+                if sorted(got) != want:
+                    viol("voxels|scan|%s" % ("duplicates" if len(set(got)) != len(got) else "set"), "Voxels.getNeighbors for the atom at x=%s (cutoff %s, box %s) over the bin %s returns atoms %s, within the cutoff are %s" % (
+                        cx, m, L, sx, got, want), dict(xs=xs, centre=c, cutoff=m, box=L))
+        finally:
+            lib.vox_free(v)
+    # ---- voxel index (non-periodic grid over [miny, maxy])
+    for k in range(ctx.n(40, 300)):
+        span = rng.choice([1.0, 2.5, 7.0]); edge = rng.choice([0.25, 0.3, 0.5, 1.1])
+        v = lib.vox_new(edge, edge, 0.0, span, 0.0, span, None, 0)
+        try:
+            ny = max(1, int(np.floor(np.float32(span) / np.float32(edge) + np.float32(0.5))))
+            size = np.float32(span) / np.float32(ny)
+            for _ in range(5):
+                y = np.float32(rng.uniform(-0.2, span + 0.2)); z = np.float32(rng.uniform(0, span))
+                loc = np.array([0.0, y, z], dtype=np.float32); out = (ctypes.c_int * 2)()
+                lib.vox_index(v, loc.ctypes.data, out)
+                reqs.append("vox index %d %s %s" % (ny, rat(float(size)), rat(float(y)))); meta.append(("index", None, out[0], (ny, float(size), float(y))))
+                ctx.case(None, ("index", k, float(y))); ctx.count("voxel indices")
+                if not 0 <= out[0] < ny:
+                    viol("voxels|index|range", "getVoxelIndex(y=%s) = %d outside [0, %d)" % (y, out[0], ny), dict(y=float(y), ny=ny))
+        finally:
+            lib.vox_free(v)
+    model = ctx.driver.query(reqs)
+    for (kind, name, got, info), m in zip(meta, model):
+        if m is None or m == "bad-op":
+            ctx.broke("driver:vox", "%s %s" % (kind, m)); break
+        if kind == "bisect":
+            if int(m) != got:
+                ctx.broke("correspondence:voxels-bisection", "find%sBound%s: impl %d, model %s" % ("Lower" if name == "lb" else "Upper", info[:3], got, m))
+        elif kind == "scan":
+            order, c, mm, L, sx = info
+            vis = [int(x) for x in m.split(" V ")[1].split(",") if x != ""]
+            want = [order[p] for p in vis if order[p] < c]
+            ctx.count("scans compared with the model's visiting order")
+            if want != got:
+                ctx.broke("correspondence:voxels-scan", "bin %s centre atom %d cutoff %s box %s: getNeighbors pushes %s, the model scans positions %s = atoms %s" % (sx, c, mm, L, got, vis, want))
+        elif kind == "index":
+            idx, marg = m.split()
+            if float(Fraction(marg)) > 1e-5 and int(idx) != got:
+                ctx.broke("correspondence:voxels-index", "getVoxelIndex%s: impl %d, model %s" % (info, got, idx))
+
+
 def run(ctx):
     warnings.filterwarnings("ignore")
     import mdtraj as md
     ctx.rule = ("coordinates (clustered, uniform, on voxel boundaries, shifted by up to 6 lattice vectors per axis out of the primary cell) x cutoff "
                 "from tiny to half the cell width x cells of C05 and no cell x query/haystack subsets x 2..60 atoms; pairs within 1e-5 nm of the "
                 "cutoff are excluded by the model; non-trivial = distinct system in which at least one atom has a neighbour")
-    ctx.assumptions.append("the voxel pruning of neighborlist.cpp is not modelled: compute_neighborlist is compared with the exact specification only")
+    ctx.assumptions.append("of the voxel search of neighborlist.cpp the discrete skeleton is modelled (Model/Voxels.lean: bisections, scanned ranges, voxel index, pre-wrap) and driven through a shim; "
+                           "the geometric bounds minx / maxx of triclinic cells are not: there compute_neighborlist is compared with the exact specification only")
     rng = ctx.rng
     seen = {}
 
@@ -162,6 +272,7 @@ def run(ctx):
                 viaM = {int(i) for (i, j), x in zip(pairs, dd) if abs(x - cutoff) <= 2e-5}
                 if not (viaD - viaM <= set(got) <= viaD | viaM):
                     viol("neighbors|vs-distances", "compute_neighbors %s disagrees with compute_distances < cutoff: %s" % (got, sorted(viaD)), rp)
+    voxel_stream(ctx, viol)
     for key, (what, rp) in seen.items():
         ctx.violation(key, what, rp)
 
